@@ -184,3 +184,57 @@ def hankel_cond(shape, row, col, W, orders, odd, meth, sin, rmax):
     return conds
 
 
+
+
+# ---------------------------------------------------------------------------
+# dtype independence: integer / float32 images and weights must give the result of
+# their float64 copies
+# ---------------------------------------------------------------------------
+DTYPES = ['uint8', 'int8', 'uint16', 'int16', 'int32', 'uint32', 'int64', 'float32']
+
+
+def dtype_array(rng, dt, shape, signed_values=False):
+    """Array of the given dtype with values up to the type's maximum (and down to its
+    minimum for signed types when signed_values); float32: positive values ~1e3."""
+    d = np.dtype(dt)
+    if d.kind == 'f':
+        a = rng.uniform(0.5, 1.5, shape) * 1e3
+        if signed_values:
+            a = a * rng.choice([-1.0, 1.0], shape)
+        return a.astype(d)
+    info = np.iinfo(d)
+    a = rng.integers(info.max // 2, info.max, shape, endpoint=True, dtype=np.int64 if d != np.uint64 else np.uint64)
+    k = rng.random(shape)
+    a = np.where(k < 0.15, info.max, a)                       # the maximum itself
+    a = np.where(k > 0.9, rng.integers(0, 4, shape), a)       # and a few small values
+    if signed_values and info.min < 0:
+        neg = rng.random(shape) < 0.3
+        a = np.where(neg, -a - 1, a)                           # down to the minimum
+    return a.astype(d)
+
+
+def dtype_exact(dti, dtw, method, folds):
+    """True when the native-dtype computation performs, after exact conversions, the same
+    binary64 operations as the float64 copies (so results must be bit-identical):
+    everything except a float32 weights array (the product weights * image is rounded to
+    float32 for narrow images) and 'remap' of an unfolded float32 image (scipy resamples
+    in the input's precision)."""
+    if dtw == 'float32':
+        return False
+    if dti == 'float32' and method == 'remap' and not folds:
+        return False
+    return True
+
+
+def dtype_key(dti, dtw, method, folds, what):
+    """Classification of a dtype disagreement: the three candidate defects of the current
+    tree get their own keys, anything else a key naming the dtypes."""
+    ki = np.dtype(dti).kind
+    kw = None if dtw in (None, 'float64') else np.dtype(dtw).kind
+    if kw in ('i', 'u') and method == 'remap' and what.startswith('exception'):
+        return 'dtype:remap-integer-weights-raise'
+    if kw in ('i', 'u') and ki in ('i', 'u'):
+        return 'dtype:integer-weights-times-integer-image-wrap'
+    if ki in ('i', 'u') and method == 'remap' and not folds:
+        return 'dtype:remap-unfolded-integer-image-rounded'
+    return 'dtype:image=%s:weights=%s:method=%s:%s' % (dti, dtw, method, 'fold' if folds else 'nofold')
